@@ -40,6 +40,8 @@ def run(prog, rep, tier):
     r15_4(prog, rep)
     r15_5(prog, rep)
     r15_6(prog, rep)
+    from . import shared
+    shared.dtype_narrowing(prog, rep, "R15.7", fns={q for q in prog.functions if q.startswith("formulae.transforms.")})
     rep.floor("R15.1", 3)
     rep.floor("R15.2", 5)
     rep.floor("R15.3", 6)
@@ -69,6 +71,16 @@ def r15_1(prog, rep):
     obl(rep, f, stores[0] if stores else f.node, "R15.1", ok,
         "Response stores its term only if it is a Term with exactly one component; every other path raises", "",
         "the single-term guard of the response is missing or can be bypassed")
+    ti = prog.fn("terms.terms.Term.__init__")
+    apps = [x for x in calls_in(ti.node) if unparse(x.func) == "self.components.append"]
+    guard_ok = False
+    for a in apps:
+        for i in walk_local(ti.node):
+            if isinstance(i, ast.If) and unparse(i.test) == f"{unparse(a.args[0])} not in self.components" and any(a is x for x in ast.walk(i)):
+                guard_ok = True
+    obl(rep, ti, apps[0] if apps else ti.node, "R15.1", guard_ok and len(apps) == 1,
+        "the component count tested by Response is taken after de-duplication by equality (name AND level): y[a]:y[b] has two components and is refused",
+        "", "components are not de-duplicated by `component not in self.components`: y[a]:y[b] can collapse into one component and pass as a response")
     mark = [s for s in walk_local(f.node) if isinstance(s, ast.Assign) and unparse(s.targets[0]) == "self.term.components[0].is_response"]
     obl(rep, f, mark[0] if mark else f.node, "R15.1", len(mark) == 1 and unparse(mark[0].value) == "True", "the response's component is marked is_response = True")
     rv = prog.fn("resolver.Resolver.visitBinaryExpr")
